@@ -301,6 +301,46 @@ def run(tier, seed, replay):
                             row_dw = dWr[i][qi] if het else dWr[i]
                             if np.abs(ee + fac * row_dw / dts - row_m).max() > 1e-9:
                                 v(f"measurement-identity-uneven:{which}:{method}", f"uneven tlist, store_measurement='{conv}': measurement != <M> + dW/dt per interval ({cfg}): {np.abs(ee + fac * row_dw / dts - row_m).max():.2e}", cfg)
+    # ------------------------------------------------------------------ the step interface reports the increments it used, per operator and quadrature:
+    # they are those of run() for the same seed, and a replay from them reproduces the stepped trajectory
+    for which, methods in (("sme", sme_methods), ("sse", sse_methods)):
+        for method in (methods if tier == "thorough" else methods[:3]):
+            for het, nsc in ((False, 1), (False, 2), (True, 1), (True, 2)):
+                cfg = {"eq": which, "method": method, "heterodyne": het, "n_sc": nsc, "interface": "start/step"}
+                try:
+                    with warnings.catch_warnings():
+                        warnings.simplefilter("ignore")
+                        with core.time_limit(240):
+                            s, st, sc = make(which, method, het, nsc, False, 0.1)
+                            rrun = s.run(st, tl, ntraj=1, seeds=77)
+                            s.start(st, tl[0], seed=77)
+                            got = [s.step(t, wiener_increment=True) for t in tl[1:]]
+                            s2, _, _ = make(which, method, het, nsc, False, 0.1)
+                            rec = np.stack([np.asarray(g[1]) for g in got], axis=-1)
+                            try:
+                                rrep = s2.run_from_experiment(st, tl, rec)
+                            except NotImplementedError:      # schemes that need more than the increments refuse a replay
+                                rrep = None
+                except core.CaseTimeout:
+                    raise
+                except Exception as e:
+                    v(f"raises:{which}:{method}", f"{cfg}: {type(e).__name__}: {e}"[:240], cfg)
+                    continue
+                rep.evaluations += 1
+                rep.count("step-increments")
+                want_dw = np.asarray(rrun.dW[0])
+                if rec.shape != want_dw.shape:
+                    v(f"step-increments-shape:{which}", f"increments returned by step(wiener_increment=True) stack to shape {rec.shape}, run() reports {want_dw.shape} ({cfg})", cfg)
+                    continue
+                d_inc = float(np.abs(rec - want_dw).max())
+                d_st = max(float((a[0] - b).norm()) for a, b in zip(got, rrun.runs_states[0][1:]))
+                d_rep = max(float((a[0] - b).norm()) for a, b in zip(got, rrep.states[1:])) if rrep is not None else 0.0
+                if d_st > 1e-9:
+                    v(f"step-states:{which}:{method}", f"start/step with the seed of a run gives other states than the run ({cfg}): {d_st:.2e}", cfg)
+                elif d_inc > 1e-12:
+                    v(f"step-increments:{which}", f"start/step reproduces the states of run() for the same seed but reports other increments (per operator / quadrature) than run(): {d_inc:.2e} ({cfg})", cfg)
+                if d_rep > 1e-9:
+                    v(f"step-increments-replay:{which}", f"replaying the increments returned by step(wiener_increment=True) does not reproduce the stepped trajectory ({cfg}): {d_rep:.2e}", cfg)
     # ------------------------------------------------------------------ schemes of order 1.5 draw the same noise for the same seed: they must approach each other at their order
     pairs15 = [m for m in ("explicit1.5", "taylor1.5", "taylor1.5_imp") if m in sme_methods]
     if len(pairs15) >= 2:
